@@ -219,8 +219,17 @@ def run_trial(b, c, trial):
             fault = ''            # the failure knobs exist only in the synthetic plugins
         c.import_fails = set([rn]) if fault == 'import' and rn else set()
         c.import_other = set([rn]) if fault == 'other' and rn else set()
+        # (a stale module is detected below, after the knobs are set: it overrides them)
         c.init_raises = set([rn]) if fault == 'ctor' and rn else set()
         c.die_raises = set([rn]) if fault == 'die' and rn else set()
+        stale = False
+        if kind == 'reload':
+            cb0 = b.irc.getCallback(nm)
+            if cb0 is not None and nm.lower() != 'owner' and cb0.__module__ not in sys.modules:
+                # an earlier failed import purged the module from sys.modules (plugin.loadPluginModule does that);
+                # Owner.reload then dies on `sys.modules[callbacks[0].__module__]` (KeyError) after having removed the
+                # callback: for the model this is "the import phase raises something that is not an ImportError"
+                stale = True; fault = 'other'; tags.add('stale-module')
         reply = canon_reply(say(b, '%s %s' % (kind, nm)))
         c.import_fails = set(); c.import_other = set(); c.init_raises = set(); c.die_raises = set()
         after_names = names(b)
@@ -331,18 +340,70 @@ def explore(ctx, n, stream='c20', maxops=10, corpus=()):
     r = rng.make(stream)
     cases = []; all_lines = []; spans = []; case_probed = []
     trials = [(t, 'corpus') for t in corpus] + [(gen_trial(r, maxops), 'gen') for _ in range(n)]
-    for trial, kind in trials:
+    # the trials run in forked workers (a long-lived bot process slows down: Owner.unload/reload call gc.collect()
+    # on a heap that grows with every plugin module ever imported)
+    def work(w, item):
+        trial, kind = item
         impl, lines, problems, findings, tags, probed = run_trial(b, c, trial)
-        fid, shown = classify(problems, findings)
-        case = Case(trial, impl='\n'.join(impl), oracle_ok=not problems, oracle_msg='; '.join(shown[:3]), tags=sorted(tags),
-                    finding=fid, kind=kind)
+        return {'impl': impl, 'lines': lines, 'problems': problems, 'findings': sorted(findings), 'tags': sorted(tags),
+                'probed': [None if x is None else sorted(x) for x in probed]}
+    results = par_map(work, trials, nworkers=10)
+    for (trial, kind), res in zip(trials, results):
+        if not res or '__exc__' in res:
+            raise RuntimeError('trial %r failed in its worker: %s' % (trial, (res or {}).get('__exc__', 'worker died')))
+        fid, shown = classify(res['problems'], set(res['findings']))
+        case = Case(trial, impl='\n'.join(res['impl']), oracle_ok=not res['problems'], oracle_msg='; '.join(shown[:3]),
+                    tags=res['tags'], finding=fid, kind=kind)
         cases.append(case)
-        case_probed.append(probed)
-        spans.append((len(all_lines), len(lines)))
-        all_lines += lines
-    hard_reset(b, c)
+        case_probed.append([None if x is None else set(x) for x in res['probed']])
+        spans.append((len(all_lines), len(res['lines'])))
+        all_lines += res['lines']
     explore.probed = case_probed
     return cases, all_lines, spans
+
+def par_map(fn, items, nworkers=10):
+    """run fn(worker, item) for every item in forked workers (round-robin split); results in item order"""
+    import traceback
+    nworkers = max(1, min(nworkers, len(items)))
+    procs = []
+    for w in range(nworkers):
+        r, wfd = os.pipe()
+        pid = os.fork()
+        if pid == 0:
+            rc = 0
+            try:
+                os.close(r)
+                out = []
+                for i in range(w, len(items), nworkers):
+                    try:
+                        out.append([i, fn(w, items[i])])
+                    except Exception:
+                        out.append([i, {'__exc__': traceback.format_exc()[-2000:]}])
+                data = json.dumps(out).encode()
+                while data:
+                    k = os.write(wfd, data)
+                    data = data[k:]
+            except BaseException:
+                rc = 3
+            os._exit(rc)
+        os.close(wfd)
+        procs.append((pid, r))
+    res = [None] * len(items)
+    for pid, r in procs:
+        chunks = []
+        while True:
+            bts = os.read(r, 1 << 16)
+            if not bts:
+                break
+            chunks.append(bts)
+        os.close(r)
+        os.waitpid(pid, 0)
+        try:
+            for i, v in json.loads(b''.join(chunks).decode()):
+                res[i] = v
+        except ValueError:
+            pass
+    return res
 
 def fill_model(cases, all_lines, spans):
     if getattr(explore, 'bootstrap_failed', False):
@@ -373,7 +434,7 @@ def finding_status(ctx):
 
 def run(ctx):
     build = leanbuild.ensure(PROPERTY, THEOREMS, thorough=ctx.thorough, extractors=[])
-    n = 9000 if ctx.thorough else 600
+    n = 30000 if ctx.thorough else 2500
     cases, lines, spans = explore(ctx, n, corpus=[WITNESS_RELOAD, WITNESS_SELF] + load_corpus())
     if build.driver_ok:
         fill_model(cases, lines, spans)
